@@ -16,26 +16,28 @@ theorem absR_of_nonneg {x : Rat} (h : 0 ≤ x) : absR x = x := by
 theorem absR_of_nonpos {x : Rat} (h : x ≤ 0) : absR x = -x := by
   unfold absR; split <;> grind
 
-theorem isclose_iff (r a x y : Rat) : isclose r a x y = true ↔ absR (x - y) ≤ a + r * absR y := by
+theorem isclose_iff (r a x y : Rat) :
+    isclose r a x y = true ↔ (absR (x - y) ≤ a + r * absR y ∨ x = y) := by
   simp [isclose]
 
-theorem isclose_self {r a : Rat} (hr : 0 ≤ r) (ha : 0 ≤ a) (x : Rat) : isclose r a x x = true := by
-  rw [isclose_iff]
-  have h1 : absR (x - x) = 0 := by rw [show x - x = 0 by grind]; rfl
-  have h2 : 0 ≤ r * absR x := Rat.mul_nonneg hr (absR_nonneg x)
-  grind
+theorem isclose_self {r a : Rat} (x : Rat) : isclose r a x x = true := by
+  rw [isclose_iff]; exact Or.inr rfl
 
 /-- closeness to a later time implies closeness to every time in between -/
-theorem isclose_mono {r a t x y : Rat} (ha : 0 ≤ a) (ht : 0 ≤ t) (htx : t ≤ x) (hxy : x ≤ y)
+theorem isclose_mono {r a t x y : Rat} (htol : r ≤ 1 ∨ 0 ≤ a) (ht : 0 ≤ t) (htx : t ≤ x) (hxy : x ≤ y)
     (h : isclose r a t y = true) : isclose r a t x = true := by
   rw [isclose_iff] at h ⊢
-  rw [absR_of_nonpos (by grind), absR_of_nonneg (by grind : (0 : Rat) ≤ y)] at h
-  rw [absR_of_nonpos (by grind), absR_of_nonneg (by grind : (0 : Rat) ≤ x)]
-  by_cases h1 : r ≤ 1
-  · have := Rat.mul_nonneg (by grind : (0 : Rat) ≤ 1 - r) (by grind : (0 : Rat) ≤ y - x)
-    grind
-  · have := Rat.mul_nonneg (by grind : (0 : Rat) ≤ r - 1) (by grind : (0 : Rat) ≤ x)
-    grind
+  rcases h with h | h
+  · left
+    rw [absR_of_nonpos (by grind), absR_of_nonneg (by grind : (0 : Rat) ≤ y)] at h
+    rw [absR_of_nonpos (by grind), absR_of_nonneg (by grind : (0 : Rat) ≤ x)]
+    by_cases h1 : r ≤ 1
+    · have := Rat.mul_nonneg (by grind : (0 : Rat) ≤ 1 - r) (by grind : (0 : Rat) ≤ y - x)
+      grind
+    · have ha : 0 ≤ a := by rcases htol with h2 | h2 <;> grind
+      have := Rat.mul_nonneg (by grind : (0 : Rat) ≤ r - 1) (by grind : (0 : Rat) ≤ x)
+      grind
+  · right; grind
 
 /-! ### schedules -/
 
@@ -79,7 +81,7 @@ theorem sorted_le_getLast : ∀ (l : List Rat), l.Pairwise (· < ·) → ∀ z, 
     tolerance (`pre`) are skipped, `x` is the first one that is not; either the step fits before `x`
     (index advanced by `|pre|`, flag false, dt unchanged) or it is cut to land on `x` exactly
     (index advanced by `|pre|+1`, flag true). -/
-theorem corrSched_spec (r a t dt : Rat) (hr : 0 ≤ r) (ha : 0 ≤ a) :
+theorem corrSched_spec (r a t dt : Rat) :
     ∀ (l : List Rat), l ≠ [] → l.Pairwise (· < ·) → (∀ x, l.head? = some x → t ≤ x) →
       (∀ z, l.getLast? = some z → isclose r a t z = false) →
       ∃ pre x post, l = pre ++ x :: post ∧ (∀ y ∈ pre, isclose r a t y = true) ∧ t ≤ x ∧
@@ -107,7 +109,7 @@ theorem corrSched_spec (r a t dt : Rat) (hr : 0 ≤ r) (ha : 0 ≤ a) :
           cases rest with
           | nil => exact absurd rfl hrest
           | cons b l => simpa [List.getLast?_cons_cons] using hzz
-        obtain ⟨pre, x, post, hl, hpre, htx, hcase⟩ := corrSched_spec r a t dt hr ha rest hrest hs' hh' hz'
+        obtain ⟨pre, x, post, hl, hpre, htx, hcase⟩ := corrSched_spec r a t dt rest hrest hs' hh' hz'
         refine ⟨st :: pre, x, post, by rw [hl]; rfl, ?_, htx, ?_⟩
         · intro y hy
           rcases List.mem_cons.mp hy with rfl | hy
@@ -137,16 +139,15 @@ structure Facts (p : Params) : Prop where
   rmax : 0 < p.recompMax
   adaptive : p.constantDt = false
   fits : Fits p
-  rtol : 0 ≤ p.rtol
-  atol : 0 ≤ p.atol
+  tol : p.rtol ≤ 1 ∨ 0 ≤ p.atol
   pos : 0 < p.dtMin ∨ (0 < p.underRelax ∧ 0 < p.recompFactor)
 
 theorem facts_of_admissible {p : Params} (h : Admissible p) : Facts p := by
-  obtain ⟨hv, hc, hf, hr, ha, hp⟩ := h
+  obtain ⟨hv, hc, hf, ht, hp⟩ := h
   simp only [Valid, validate, hc, Bool.false_eq_true, if_false, Bool.and_eq_true, decide_eq_true_eq,
     List.all_eq_true] at hv
   obtain ⟨⟨⟨⟨⟨h1, h2⟩, h3⟩, h4⟩, _⟩, ⟨⟨⟨⟨⟨⟨⟨⟨⟨⟨⟨h6, h7⟩, _⟩, _⟩, _⟩, _⟩, _⟩, h13⟩, _⟩, _⟩, _⟩, h17⟩⟩ := hv
-  exact ⟨h1, h2, sorted_of_strictlyIncreasing _ h3, h4, h6, h7, h13, h17, hc, hf, hr, ha, hp⟩
+  exact ⟨h1, h2, sorted_of_strictlyIncreasing _ h3, h4, h6, h7, h13, h17, hc, hf, ht, hp⟩
 
 theorem Facts.final_mem {p : Params} (F : Facts p) : p.schedule.getLast? = some p.timeFinal := by
   unfold Params.timeFinal
@@ -214,7 +215,7 @@ theorem correct_spec {p : Params} (F : Facts p) (s : TM) (x0 : Rat)
     rw [List.getLast?_drop, if_neg (by omega), F.final_mem] at hz
     cases hz; exact hnf
   obtain ⟨pre, x, post, hl, hpre, htx, hcase⟩ :=
-    corrSched_spec p.rtol p.atol s.time (clampMax p (clampMin p s.dt)) F.rtol F.atol _ hne hsorted hhead hlast
+    corrSched_spec p.rtol p.atol s.time (clampMax p (clampMin p s.dt)) _ hne hsorted hhead hlast
   obtain ⟨hx, hmem⟩ := getElem?_of_drop_eq hl
   have hb := clamp_bounds F s.dt
   rcases hcase with ⟨hfit, hc⟩ | ⟨hcut, hnc, hc⟩
@@ -229,7 +230,7 @@ theorem correct_spec {p : Params} (F : Facts p) (s : TM) (x0 : Rat)
   · have hxt : s.time < x := by
       rcases Rat.le_iff_lt_or_eq.mp htx with h | h
       · exact h
-      · rw [← h, isclose_self F.rtol F.atol] at hnc; cases hnc
+      · rw [← h, isclose_self] at hnc; cases hnc
     refine ⟨{ s with dt := x - s.time, idx := s.idx + (pre.length + 1), aboutToHit := true },
       x - s.time, by simp only [correct, hc], rfl, rfl, rfl, rfl, ?_, ?_, Or.inr rfl, ?_, ?_, ?_, ?_⟩
     · show 0 < x - s.time; grind
@@ -336,9 +337,18 @@ theorem after_increase {p : Params} (F : Facts p) {s : TM} {acc : List Rat} (hm 
   refine ⟨fun a ha => ?_, by grind, by grind⟩
   have := h1 a ha; grind
 
-theorem step_converged {p : Params} (F : Facts p) {s : TM} {acc : List Rat} (hm : acc.Pairwise (· > ·))
+/-- A converged step: the new time is accepted; the loop either stops with every scheduled time hit, or
+    goes on from an invariant state whose `pending` index is at least the old `_scheduled_idx`. -/
+theorem step_converged_cases {p : Params} (F : Facts p) {s : TM} {acc : List Rat} (hm : acc.Pairwise (· > ·))
     (hb : ∀ a ∈ acc, a ≤ p.timeFinal) (I : Inv p s acc) (it : Int) :
-    Good p (stepRun p { tm := s, accepted := acc, status := .running } (.converged it)) := by
+    (stepRun p { tm := s, accepted := acc, status := .running } (.converged it)).accepted = (s.time + s.dt) :: acc ∧
+    ((s.time + s.dt) :: acc).Pairwise (· > ·) ∧ (∀ a ∈ (s.time + s.dt) :: acc, a ≤ p.timeFinal) ∧
+    (((stepRun p { tm := s, accepted := acc, status := .running } (.converged it)).status = .finished ∧
+        ∀ y ∈ p.schedule, HitBy p ((s.time + s.dt) :: acc) y) ∨
+     ((stepRun p { tm := s, accepted := acc, status := .running } (.converged it)).status = .running ∧
+        (stepRun p { tm := s, accepted := acc, status := .running } (.converged it)).tm.time = s.time + s.dt ∧
+        s.idx ≤ pending (stepRun p { tm := s, accepted := acc, status := .running } (.converged it)).tm ∧
+        Inv p (stepRun p { tm := s, accepted := acc, status := .running } (.converged it)).tm ((s.time + s.dt) :: acc))) := by
   obtain ⟨x, hx, hle, heq⟩ := I.next
   obtain ⟨hgt, hfin, hnn⟩ := after_increase F hm I
   have hm' : ((s.time + s.dt) :: acc).Pairwise (· > ·) := List.pairwise_cons.mpr ⟨hgt, hm⟩
@@ -348,12 +358,12 @@ theorem step_converged {p : Params} (F : Facts p) {s : TM} {acc : List Rat} (hm 
     · exact hfin
     · exact hb a ha
   have hself : HitBy p ((s.time + s.dt) :: acc) (s.time + s.dt) :=
-    ⟨_, List.mem_cons_self, isclose_self F.rtol F.atol _⟩
+    ⟨_, List.mem_cons_self, isclose_self _⟩
   by_cases hf : finalTimeReached p (increaseTimeIndex (increaseTime s)) = true
   · -- the final time is reached: the loop stops
-    simp only [stepRun, F.adaptive, Bool.false_eq_true, if_false, compute_conv_final it hf, statusOf, hf, if_true]
-    refine ⟨hm', hb', ?_⟩
-    show ∀ y ∈ p.schedule, HitBy p ((s.time + s.dt) :: acc) y
+    refine ⟨?_, hm', hb', Or.inl ⟨?_, ?_⟩⟩
+    · simp only [stepRun, F.adaptive, Bool.false_eq_true, if_false, compute_conv_final it hf]; rfl
+    · simp only [stepRun, F.adaptive, Bool.false_eq_true, if_false, compute_conv_final it hf, statusOf, hf, if_true]
     intro y hy
     obtain ⟨j, hj, rfl⟩ := List.mem_iff_getElem.mp hy
     have hjy : p.schedule[j]? = some p.schedule[j] := List.getElem?_eq_getElem hj
@@ -374,7 +384,7 @@ theorem step_converged {p : Params} (F : Facts p) {s : TM} {acc : List Rat} (hm 
           grind
         · exact h
       exact ⟨_, List.mem_cons_self,
-        isclose_mono F.atol hnn (by grind) (F.le_final _ hy) hcl⟩
+        isclose_mono F.tol hnn (by grind) (F.le_final _ hy) hcl⟩
   · -- the loop goes on
     have hf' : finalTimeReached p (increaseTimeIndex (increaseTime s)) = false := by simpa using hf
     obtain ⟨ha1, ha2, ha3, ha4, ha5, ha6⟩ := adaptIter_facts p (increaseTimeIndex (increaseTime s)) it
@@ -402,7 +412,7 @@ theorem step_converged {p : Params} (F : Facts p) {s : TM} {acc : List Rat} (hm 
           have e : s.idx - 1 = p.schedule.length - 1 := by omega
           rw [e, last_index F] at hx
           cases hx
-          rw [ht1, hxe, isclose_self F.rtol F.atol] at hnf
+          rw [ht1, hxe, isclose_self] at hnf
           cases hnf
     obtain ⟨x0, hx0, hle0⟩ := hx0
     have hpos : 0 < clampMax p (clampMin p (adaptIter p (increaseTimeIndex (increaseTime s)) it).dt) := by
@@ -420,8 +430,13 @@ theorem step_converged {p : Params} (F : Facts p) {s : TM} {acc : List Rat} (hm 
         (by rw [ha1, ht1]; exact hle0) (by rw [ha1]; exact hnf)
     have ht3 : s3.time = s.time + s.dt := by rw [ht, ha1, ht1]
     have hf3 : finalTimeReached p s3 = false := by rw [final_congr p (ht3.trans ht1.symm)]; exact hf'
-    simp only [stepRun, F.adaptive, Bool.false_eq_true, if_false, compute_conv F it hf', hc, statusOf, hf3]
-    refine ⟨hm', hb', ?_⟩
+    have hidx' : s.idx ≤ pending s3 := by rw [ha2] at hidx; exact hidx
+    refine ⟨?_, hm', hb', Or.inr ⟨?_, ?_, ?_, ?_⟩⟩
+    · simp only [stepRun, F.adaptive, Bool.false_eq_true, if_false, compute_conv F it hf', hc]; rfl
+    · simp only [stepRun, F.adaptive, Bool.false_eq_true, if_false, compute_conv F it hf', hc, statusOf, hf3]
+    · simp only [stepRun, F.adaptive, Bool.false_eq_true, if_false, compute_conv F it hf', hc]; exact ht3
+    · simp only [stepRun, F.adaptive, Bool.false_eq_true, if_false, compute_conv F it hf', hc]; exact hidx'
+    simp only [stepRun, F.adaptive, Bool.false_eq_true, if_false, compute_conv F it hf', hc]
     show Inv p s3 ((s.time + s.dt) :: acc)
     refine ⟨by simp [ht3], hdpos, hipos, hnext, ?_, hf3, hdmax, hdmin, ?_, by rw [ht3]; exact hnn, ?_⟩
     · intro j hj
@@ -443,6 +458,16 @@ theorem step_converged {p : Params} (F : Facts p) {s : TM} {acc : List Rat} (hm 
           exact ⟨y, hy1, _, List.mem_cons_self, hy2⟩
     · rw [hrc, ha5]; have := F.rmax; grind
     · rw [hti, ha4]; have := I.ti; simp [increaseTimeIndex, increaseTime]; omega
+
+
+theorem step_converged {p : Params} (F : Facts p) {s : TM} {acc : List Rat} (hm : acc.Pairwise (· > ·))
+    (hb : ∀ a ∈ acc, a ≤ p.timeFinal) (I : Inv p s acc) (it : Int) :
+    Good p (stepRun p { tm := s, accepted := acc, status := .running } (.converged it)) := by
+  obtain ⟨hacc, hm', hb', hcase⟩ := step_converged_cases F hm hb I it
+  refine ⟨by rw [hacc]; exact hm', by rw [hacc]; exact hb', ?_⟩
+  rcases hcase with ⟨h, hh⟩ | ⟨h, _, _, hI⟩
+  · rw [h, hacc]; exact hh
+  · rw [h, hacc]; exact hI
 
 /-- the state `_adaptation_based_on_recomputation` hands to the corrections -/
 def rewound (p : Params) (s : TM) : TM :=
@@ -536,7 +561,7 @@ theorem good_start {p : Params} (F : Facts p) : Good p (startRun p) := by
   have h0 : 0 ≤ s0 := F.nonneg s0 hmem0
   have hfin0 : s0 ≤ p.timeFinal := F.le_final s0 hmem0
   have hfit : s0 + p.dtInit ≤ s1 := by have := F.fits; simpa [Fits, ht0, hs] using this
-  have hself : HitBy p [s0] s0 := ⟨s0, by simp, isclose_self F.rtol F.atol _⟩
+  have hself : HitBy p [s0] s0 := ⟨s0, by simp, isclose_self _⟩
   refine ⟨by simp [startRun], by simp [startRun, ht0, hfin0], ?_⟩
   by_cases hf : finalTimeReached p (init p) = true
   · simp only [startRun, statusOf, hf, if_true]
@@ -553,7 +578,7 @@ theorem good_start {p : Params} (F : Facts p) : Good p (startRun p) := by
       rw [hs] at hy hsrt
       exact sorted_head_le hsrt y hy
     rw [ht0]
-    exact ⟨s0, by simp, isclose_mono F.atol h0 hy0 (F.le_final y hy) hcl⟩
+    exact ⟨s0, by simp, isclose_mono F.tol h0 hy0 (F.le_final y hy) hcl⟩
   · have hf' : finalTimeReached p (init p) = false := by simpa using hf
     simp only [startRun, statusOf, hf', Bool.false_eq_true, if_false]
     show Inv p (init p) [p.timeInit]
@@ -626,6 +651,267 @@ theorem failures_exhaust {p : Params} (F : Facts p) : ∀ (k : Nat) (r : Run), G
     · rw [runFrom_not_running p _ _ (by rw [h]; simp)]; rw [h]; simp
     · rw [runFrom_not_running p _ _ (by rw [h]; simp)]; rw [h]; simp
     · exact ih _ hg' h (by rw [hrc]; push_cast at hk ⊢; omega)
+
+
+/-! ### progress: converged steps use up a bounded budget -/
+
+/-- remaining budget: distance to the final time plus `dt_min` for every scheduled time still ahead -/
+def budget (p : Params) (s : TM) : Rat :=
+  (p.timeFinal - s.time) + p.dtMin * ((p.schedule.length - pending s : Nat) : Rat)
+
+theorem Inv.pending_lt {p : Params} {s : TM} {acc : List Rat} (I : Inv p s acc) : pending s < p.schedule.length := by
+  obtain ⟨x, hx, _, _⟩ := I.next
+  exact (List.getElem?_eq_some_iff.mp hx).1
+
+theorem budget_ge {p : Params} (F : Facts p) (hmin : 0 < p.dtMin) {s : TM} {acc : List Rat} (I : Inv p s acc) :
+    p.dtMin ≤ budget p s := by
+  obtain ⟨x, hx, hle, _⟩ := I.next
+  have h1 := F.le_final x (sched_mem hx)
+  have h2 := I.dt_pos
+  have h3 : (1 : Rat) ≤ ((p.schedule.length - pending s : Nat) : Rat) := by
+    have := I.pending_lt
+    have : 1 ≤ p.schedule.length - pending s := by omega
+    exact_mod_cast this
+  have := Rat.mul_le_mul_of_nonneg_left h3 (Rat.le_of_lt hmin)
+  unfold budget
+  grind
+
+/-- a converged step that does not end the run costs at least `dt_min` of the budget -/
+theorem converged_costs {p : Params} (F : Facts p) (hmin : 0 < p.dtMin) {s : TM} {acc : List Rat}
+    (hm : acc.Pairwise (· > ·)) (hb : ∀ a ∈ acc, a ≤ p.timeFinal) (I : Inv p s acc) (it : Int)
+    (h : (stepRun p { tm := s, accepted := acc, status := .running } (.converged it)).status = .running) :
+    budget p (stepRun p { tm := s, accepted := acc, status := .running } (.converged it)).tm + p.dtMin
+      ≤ budget p s := by
+  obtain ⟨_, _, _, hcase⟩ := step_converged_cases F hm hb I it
+  rcases hcase with ⟨h', _⟩ | ⟨_, ht, hidx, hI⟩
+  · rw [h'] at h; cases h
+  · have hlt := hI.pending_lt
+    have hlt0 := I.pending_lt
+    unfold budget
+    rw [ht]
+    cases hab : s.aboutToHit with
+    | true =>
+      have h1 := I.idx_pos hab
+      have hp : pending s = s.idx - 1 := by simp [pending, hab]
+      have hsplit : ((p.schedule.length - pending s : Nat) : Rat) =
+          ((p.schedule.length - pending (stepRun p { tm := s, accepted := acc, status := .running } (.converged it)).tm : Nat) : Rat)
+            + ((pending (stepRun p { tm := s, accepted := acc, status := .running } (.converged it)).tm - pending s : Nat) : Rat) := by
+        rw [← Rat.natCast_add]; congr 1; omega
+      have h3 : (1 : Rat) ≤ ((pending (stepRun p { tm := s, accepted := acc, status := .running } (.converged it)).tm - pending s : Nat) : Rat) := by
+        have : 1 ≤ pending (stepRun p { tm := s, accepted := acc, status := .running } (.converged it)).tm - pending s := by omega
+        exact_mod_cast this
+      have h4 := Rat.mul_le_mul_of_nonneg_left h3 (Rat.le_of_lt hmin)
+      have := I.dt_pos
+      rw [hsplit]
+      grind
+    | false =>
+      have hp : pending s = s.idx := by simp [pending, hab]
+      have hdt : p.dtMin ≤ s.dt := by
+        rcases I.dt_min with h1 | h1
+        · exact h1
+        · rw [hab] at h1; cases h1
+      have h3 : ((p.schedule.length - pending (stepRun p { tm := s, accepted := acc, status := .running } (.converged it)).tm : Nat) : Rat)
+          ≤ ((p.schedule.length - pending s : Nat) : Rat) := by
+        have : p.schedule.length - pending (stepRun p { tm := s, accepted := acc, status := .running } (.converged it)).tm
+            ≤ p.schedule.length - pending s := by omega
+        exact_mod_cast this
+      have h4 := Rat.mul_le_mul_of_nonneg_left h3 (Rat.le_of_lt hmin)
+      grind
+
+theorem converged_run_budget {p : Params} (F : Facts p) (hmin : 0 < p.dtMin) :
+    ∀ (os : List Outcome), AllConverged os → ∀ r, Good p r → r.status = .running →
+      ((runFrom p r os).status = .finished) ∨
+      ((runFrom p r os).status = .running ∧
+        budget p (runFrom p r os).tm + p.dtMin * (os.length : Rat) ≤ budget p r.tm) := by
+  intro os
+  induction os with
+  | nil =>
+    intro _ r _ hr
+    right; refine ⟨hr, ?_⟩
+    show budget p r.tm + p.dtMin * ((0 : Nat) : Rat) ≤ budget p r.tm
+    have : ((0 : Nat) : Rat) = 0 := rfl
+    rw [this]
+    grind
+  | cons o os ih =>
+    intro hall r hg hr
+    obtain ⟨it, rfl⟩ := hall o List.mem_cons_self
+    have hall' : AllConverged os := fun o ho => hall o (List.mem_cons_of_mem _ ho)
+    obtain ⟨tm, acc, st⟩ := r
+    cases hr
+    obtain ⟨hm, hb, hI⟩ := hg
+    have hI : Inv p tm acc := hI
+    have hg' := step_converged F hm hb hI it
+    show (runFrom p (stepRun p _ (.converged it)) os).status = .finished ∨ _
+    obtain ⟨_, _, _, hcase⟩ := step_converged_cases F hm hb hI it
+    rcases hcase with ⟨h', _⟩ | ⟨h', _, _, _⟩
+    · left
+      rw [runFrom_not_running p _ _ (by rw [h']; simp)]; exact h'
+    · have hc := converged_costs F hmin hm hb hI it h'
+      rcases ih hall' _ hg' h' with h2 | ⟨h2, h3⟩
+      · exact Or.inl h2
+      · right
+        refine ⟨h2, ?_⟩
+        show budget p (runFrom p (stepRun p _ (.converged it)) os).tm + p.dtMin * ((os.length + 1 : Nat) : Rat) ≤ budget p tm
+        push_cast
+        grind
+
+/-! ### constant time step -/
+
+theorem valid_common {p : Params} (h : Valid p) :
+    2 ≤ p.schedule.length ∧ (∀ t ∈ p.schedule, 0 ≤ t) ∧ p.schedule.Pairwise (· < ·) ∧ 0 < p.dtInit := by
+  simp only [Valid, validate, Bool.and_eq_true, decide_eq_true_eq, List.all_eq_true] at h
+  obtain ⟨⟨⟨⟨⟨h1, h2⟩, h3⟩, h4⟩, _⟩, _⟩ := h
+  exact ⟨h1, h2, sorted_of_strictlyIncreasing _ h3, h4⟩
+
+/-- the times `t₀ + k·dt`, `k = n, …, 0` -/
+def arith (t0 dt : Rat) : Nat → List Rat
+  | 0 => [t0]
+  | n + 1 => (t0 + ((n + 1 : Nat) : Rat) * dt) :: arith t0 dt n
+
+theorem mem_arith (t0 dt : Rat) : ∀ n k, k ≤ n → t0 + (k : Rat) * dt ∈ arith t0 dt n
+  | 0, k, h => by
+    have : k = 0 := by omega
+    subst this
+    have : ((0 : Nat) : Rat) = 0 := rfl
+    simp [arith, this]
+    grind
+  | n + 1, k, h => by
+    rcases Nat.eq_or_lt_of_le h with e | l
+    · subst e; simp [arith]
+    · exact List.mem_cons_of_mem _ (mem_arith t0 dt n k (by omega))
+
+theorem arith_length (t0 dt : Rat) : ∀ n, (arith t0 dt n).length = n + 1
+  | 0 => rfl
+  | n + 1 => by simp [arith, arith_length t0 dt n]
+
+theorem arith_getElem (t0 dt : Rat) : ∀ n i (h : i < (arith t0 dt n).length),
+    (arith t0 dt n)[i] = t0 + ((n - i : Nat) : Rat) * dt
+  | 0, i, h => by
+    have : i = 0 := by simp [arith] at h; omega
+    subst this
+    have : ((0 : Nat) : Rat) = 0 := rfl
+    simp [arith, this]
+    grind
+  | n + 1, 0, _ => by simp [arith]
+  | n + 1, i + 1, h => by
+    have h' : i < (arith t0 dt n).length := by simp [arith] at h; omega
+    have := arith_getElem t0 dt n i h'
+    simp only [arith, List.getElem_cons_succ, this]
+    congr 3; omega
+
+/-- invariant of the loop in constant-dt mode on a tape of converged steps -/
+structure CInv (p : Params) (r : Run) : Prop where
+  acc : ∃ n : Nat, r.accepted = arith p.timeInit p.dtInit n ∧ r.tm.time = p.timeInit + (n : Rat) * p.dtInit
+  dt : r.tm.dt = p.dtInit
+  st : (r.status = .running ∧ finalTimeReached p r.tm = false) ∨ (r.status = .finished ∧ finalTimeReached p r.tm = true)
+
+theorem cinv_start (p : Params) : CInv p (startRun p) := by
+  refine ⟨⟨0, rfl, ?_⟩, rfl, ?_⟩
+  · show p.timeInit = p.timeInit + ((0 : Nat) : Rat) * p.dtInit
+    have : ((0 : Nat) : Rat) = 0 := rfl
+    rw [this]; grind
+  · show ((statusOf p (init p)) = .running ∧ _) ∨ ((statusOf p (init p)) = .finished ∧ _)
+    unfold statusOf
+    cases h : finalTimeReached p (init p) <;> simp [startRun, h]
+
+theorem cinv_step {p : Params} (hc : p.constantDt = true) (r : Run) (it : Int) (h : CInv p r) :
+    CInv p (stepRun p r (.converged it)) := by
+  obtain ⟨tm, acc, st⟩ := r
+  obtain ⟨⟨n, hacc, ht⟩, hdt, hst⟩ := h
+  rcases hst with ⟨hs, hf⟩ | ⟨hs, hf⟩
+  · cases hs
+    simp only [stepRun, hc, if_true]
+    refine ⟨⟨n + 1, ?_, ?_⟩, hdt, ?_⟩
+    · show (tm.time + tm.dt) :: acc = arith p.timeInit p.dtInit (n + 1)
+      simp only [arith]
+      have hdt' : tm.dt = p.dtInit := hdt
+      have ht' : tm.time = p.timeInit + (n : Rat) * p.dtInit := ht
+      have hacc' : acc = arith p.timeInit p.dtInit n := hacc
+      rw [hacc', ht', hdt']
+      congr 1
+      push_cast; grind
+    · show tm.time + tm.dt = p.timeInit + ((n + 1 : Nat) : Rat) * p.dtInit
+      have hdt' : tm.dt = p.dtInit := hdt
+      have ht' : tm.time = p.timeInit + (n : Rat) * p.dtInit := ht
+      rw [ht', hdt']; push_cast; grind
+    · show (statusOf p _ = .running ∧ _) ∨ (statusOf p _ = .finished ∧ _)
+      unfold statusOf
+      cases h : finalTimeReached p (increaseTimeIndex (increaseTime tm)) <;> simp
+  · cases hs
+    exact ⟨⟨n, hacc, ht⟩, hdt, Or.inr ⟨rfl, hf⟩⟩
+
+theorem cinv_run {p : Params} (hc : p.constantDt = true) : ∀ (os : List Outcome), AllConverged os →
+    ∀ r, CInv p r → CInv p (runFrom p r os) := by
+  intro os
+  induction os with
+  | nil => intro _ r h; exact h
+  | cons o os ih =>
+    intro hall r h
+    obtain ⟨it, rfl⟩ := hall o List.mem_cons_self
+    exact ih (fun o ho => hall o (List.mem_cons_of_mem _ ho)) _ (cinv_step hc r it h)
+
+theorem isclose_between {r a y u v : Rat} (h1 : y ≤ u) (h2 : u ≤ v) (h : isclose r a v y = true) :
+    isclose r a u y = true := by
+  rw [isclose_iff] at h ⊢
+  rcases h with h | h
+  · left
+    rw [absR_of_nonneg (by grind : (0 : Rat) ≤ v - y)] at h
+    rw [absR_of_nonneg (by grind : (0 : Rat) ≤ u - y)]
+    grind
+  · right; grind
+
+theorem final_mem_of_len {p : Params} (hlen : 2 ≤ p.schedule.length) : p.schedule.getLast? = some p.timeFinal := by
+  unfold Params.timeFinal
+  rw [List.getLastD_eq_getLast?]
+  cases h : p.schedule.getLast? with
+  | none =>
+    rw [List.getLast?_eq_none_iff.mp h] at hlen
+    simp at hlen
+  | some z => rfl
+
+theorem constant_hits {p : Params} (hv : Valid p) (hc : p.constantDt = true)
+    (htol : p.rtol ≤ 1 ∨ 0 ≤ p.atol)
+    (H : ∀ y ∈ p.schedule, ∃ k : Nat, isclose p.rtol p.atol (p.timeInit + (k : Rat) * p.dtInit) y = true)
+    (os : List Outcome) (hall : AllConverged os) (hfin : (run p os).status = .finished) :
+    ∀ y ∈ p.schedule, HitBy p (run p os).accepted y := by
+  obtain ⟨hlen, hnn, hsorted, hdt⟩ := valid_common hv
+  have hI := cinv_run hc os hall _ (cinv_start p)
+  obtain ⟨⟨n, hacc, ht⟩, _, hst⟩ := hI
+  have hacc' : (run p os).accepted = arith p.timeInit p.dtInit n := hacc
+  have ht' : (run p os).tm.time = p.timeInit + (n : Rat) * p.dtInit := ht
+  have hf : finalTimeReached p (run p os).tm = true := by
+    rcases hst with ⟨h, _⟩ | ⟨_, h⟩
+    · have : (run p os).status = .running := h
+      rw [hfin] at this; cases this
+    · exact h
+  have ht0 : 0 ≤ p.timeInit := by
+    unfold Params.timeInit
+    cases hs : p.schedule with
+    | nil => simp [hs] at hlen
+    | cons a l => exact hnn a (by simp [hs])
+  intro y hy
+  obtain ⟨k, hk⟩ := H y hy
+  rw [hacc']
+  rcases Nat.lt_or_ge n k with hlt | hge
+  · -- the loop stopped before step k: the last accepted time is at least as close to y
+    refine ⟨p.timeInit + (n : Rat) * p.dtInit, mem_arith _ _ n n (Nat.le_refl n), ?_⟩
+    have hnk : p.timeInit + (n : Rat) * p.dtInit ≤ p.timeInit + (k : Rat) * p.dtInit := by
+      have h1 : (n : Rat) ≤ (k : Rat) := by exact_mod_cast Nat.le_of_lt hlt
+      have := Rat.mul_le_mul_of_nonneg_right h1 (Rat.le_of_lt hdt)
+      grind
+    have hn0 : 0 ≤ p.timeInit + (n : Rat) * p.dtInit := by
+      have h1 : (0 : Rat) ≤ (n : Rat) := by exact_mod_cast Nat.zero_le n
+      have := Rat.mul_nonneg h1 (Rat.le_of_lt hdt)
+      grind
+    by_cases hyn : y ≤ p.timeInit + (n : Rat) * p.dtInit
+    · exact isclose_between hyn hnk hk
+    · have hyf : y ≤ p.timeFinal := sorted_le_getLast _ hsorted _ (final_mem_of_len hlen) y hy
+      simp only [finalTimeReached, Bool.or_eq_true, decide_eq_true_eq] at hf
+      rw [ht'] at hf
+      rcases hf with h | h
+      · grind
+      · exact isclose_mono htol hn0 (by grind) hyf h
+  · exact ⟨_, mem_arith _ _ n k hge, hk⟩
 
 
 end PorepyVerif.C09
